@@ -11,7 +11,8 @@ import readmodel as rm
 PROP = "C08"
 MODEL_TARGETS = ["Model/Num.vo", "Corr/ReadShow.vo"]
 THEOREMS = ["C08_verbatim", "C08_integer", "C08_float", "C08_guard_current", "C08_api_uwi", "C08_api_uwi_any_case", "C08_curves_raw", "C08_parameter_num", "C08_other_num",
-            "C08_num_current", "C08_curves_current", "C08_params_current", "C08_metadata_current"]
+            "C08_num_current", "C08_curves_current", "C08_params_current", "C08_metadata_current",
+            "C08_parser_init_current", "C08_parser_call_current"]
 ASSUMPTIONS = [
     "oracle: np.float64(text) is the correctly rounded double of a decimal literal (checked bit-exactly per case against decimal.Decimal)",
     "model of int()/float() literal syntax (PyLib/NumLit.v) is exact for ASCII strings; non-ASCII digits are rejected by the guard before they are reached",
